@@ -210,7 +210,10 @@ def judge_composite(ctx, fn, rc, mc, charset, icvn, DE, CODES, rng, seen_nt):
         return V.value(s) if s.usage != 'N' else ''
     base = [good(s) if s.usage == 'R' or (s.usage == 'S' and rng.random() < 0.5) else '' for s in subs]
     variants = [('absent', None), ('empty', ['']), ('all-empty', [''] * len(subs)), ('good', list(base)), ('too-many', list(base) + ['X']),
-                ('too-many-empty-tail', list(base) + ['', 'X'])]
+                ('too-many-empty-tail', list(base) + ['', 'X']),
+                # components beyond the definition that are all empty (trailing component separators): still more components than defined
+                ('surplus-empty', [c if c != '' else (good(subs[0]) or 'X') if k_ == 0 else c for k_, c in enumerate(base)] + ['']),
+                ('surplus-empty', [c if c != '' else (good(subs[0]) or 'X') if k_ == 0 else c for k_, c in enumerate(base)] + ['', '', ''])]
     for j, s in enumerate(subs):
         b = list(base)
         b[j] = ''
